@@ -270,3 +270,59 @@ package signedexchange
 //@   requires e != nil && s.ValidityUrl != nil
 //@   ensures[signs-this-exchange] err == nil ==> exists m []byte :: {bytes(m)} signedMsgOf(bytes(m), e, len(s.Certs) == 0 ? emptyBytes() : sha256of(cat(emptyBytes(), bytes(s.Certs[0].Raw))), len(s.Certs) != 0, s.ValidityUrl.String(), s.Date.Unix(), s.Expires.Unix()) && signedWith(s.Algorithm, bytes(m), bytes(sig))
 //@   assigns s.Algorithm
+
+// ---- reader side (C10, C02) -------------------------------------------------------
+// The header maps are read entry by entry from the decoder's stream; keys
+// with an upper-case letter are refused; the loops terminate (the decoder
+// consumes input or fails).
+//@ func (*Exchange).decodeRequestMap
+//@   props C02 C10
+//@   requires dec != nil && dec.r != nil && e.RequestHeaders != nil
+//@   ensures spos(dec.r) >= old(spos(dec.r)) && spos(dec.r) <= send(dec.r)
+//@   assigns spos(dec.r), e.RequestMethod, e.RequestURI if e.Version == version.Version1b1, entries(e.RequestHeaders)
+//@   loop 0:
+//@     invariant dec.r != nil && e.RequestHeaders != nil && spos(dec.r) >= old(spos(dec.r)) && spos(dec.r) <= send(dec.r)
+//@     decreases n - i
+
+//@ func (*Exchange).decodeResponseMap
+//@   props C02 C10
+//@   requires dec != nil && dec.r != nil && e.ResponseHeaders != nil
+//@   ensures spos(dec.r) >= old(spos(dec.r)) && spos(dec.r) <= send(dec.r)
+//@   assigns spos(dec.r), e.ResponseStatus, entries(e.ResponseHeaders)
+//@   loop 0:
+//@     invariant dec.r != nil && e.ResponseHeaders != nil && spos(dec.r) >= old(spos(dec.r)) && spos(dec.r) <= send(dec.r)
+//@     decreases n - i
+
+//@ func (*Exchange).decodeExchangeHeaders
+//@   props C02 C10
+//@   requires dec != nil && dec.r != nil && e.RequestHeaders != nil && e.ResponseHeaders != nil && e.RequestHeaders != e.ResponseHeaders
+//@   ensures spos(dec.r) >= old(spos(dec.r)) && spos(dec.r) <= send(dec.r)
+//@   assigns spos(dec.r), e.RequestMethod, e.RequestURI if e.Version == version.Version1b1, e.ResponseStatus, entries(e.RequestHeaders), entries(e.ResponseHeaders)
+
+//@ func validateFallbackURL
+//@   props C02 C10
+//@   returns (s, err)
+//@   ensures[https-only] err == nil ==> urlScheme(s) == "https" && len(s) == len(urlBytes)
+//@   assigns nothing
+
+// ReadExchangePrologue: no input makes it panic; what it allocates is bounded
+// by the 2- and 3-byte length fields it has read (at most 2^16-1, 2^24-1
+// bytes); a returned exchange has a known version and, for b2/b3, an https
+// fallback URL of exactly the declared length.
+//@ func ReadExchangePrologue
+//@   props C02 C10
+//@   returns (e, err)
+//@   requires r != nil
+//@   ensures[version-known] err == nil ==> e != nil && fresh(e) && (e.Version == version.Version1b1 || e.Version == version.Version1b2 || e.Version == version.Version1b3)
+//@   ensures[signature-length-field] err == nil ==> len(e.SignatureHeaderValue) < 16777216
+//@   ensures[fallback-url-https] err == nil && e.Version != version.Version1b1 ==> urlScheme(e.RequestURI) == "https" && len(e.RequestURI) < 65536
+//@   ensures spos(r) >= old(spos(r)) && spos(r) <= send(r)
+//@   assigns spos(r)
+
+//@ func ReadExchange
+//@   props C02 C10
+//@   returns (e, err)
+//@   requires r != nil
+//@   ensures[version-known] err == nil ==> e != nil && (e.Version == version.Version1b1 || e.Version == version.Version1b2 || e.Version == version.Version1b3)
+//@   ensures spos(r) >= old(spos(r)) && spos(r) <= send(r)
+//@   assigns spos(r)
